@@ -939,7 +939,7 @@ func (x *g) template(file int, ns, name string) *Template {
 
 // Features lists the constructs Opts.Focus can name.
 var Features = []string{"augment-into-map", "augment-empty", "augment-onto-empty", "data-expr-call", "msg-only-let", "msg-only-param", "push-onto-range", "push-onto-data", "map-literal-print",
-	"css-expr", "literal", "default-first-switch", "plural-msg", "ifempty", "ij", "global", "nested-let-call"}
+	"css-expr", "literal", "default-first-switch", "plural-msg", "ifempty", "ij", "global", "nested-let-call", "deep-nesting", "long-value"}
 
 // FocusFor draws the focus of a case from its seed: none for two cases in five, otherwise one of
 // the Features.
@@ -1061,6 +1061,28 @@ func (x *g) focusNode() *Node {
 		if x.o.Globals {
 			return &Node{K: "print", E: x.global(tStr)}
 		}
+	case "deep-nesting":
+		// twenty blocks deep: whatever is sized for "ordinary" nesting is outgrown
+		n := &Node{K: "print", E: x.strLit()}
+		for i := 0; i < 20; i++ {
+			switch i % 4 {
+			case 0:
+				n = &Node{K: "if", E: "true", Body: []*Node{n}}
+			case 1:
+				n = &Node{K: "switch", E: "1", Conds: []*Cond{{E: "1", Body: []*Node{n}}}}
+			case 2:
+				name := x.fresh("r")
+				n = &Node{K: "for", Var: name, E: "range(1)", Body: []*Node{n}}
+			default:
+				n = &Node{K: "if", E: "false", Body: []*Node{{K: "text", S: "x"}}, Else: []*Node{n}}
+			}
+		}
+		return n
+	case "long-value":
+		// an escaped value longer than the small buffers code tends to have (64, 256, 4096 bytes), with
+		// special characters at both ends and in the middle
+		unit := []string{"0123456789abcdef", "<b>&\"quoted\"</b> ", "long word "}[x.pick(3)]
+		return &Node{K: "print", E: Quote("<" + strings.Repeat(unit, []int{5, 17, 300}[x.pick(3)]) + "&>")}
 	case "nested-let-call":
 		for _, s := range x.sigs {
 			if x.cost+x.mult*s.cost > costLimit {
